@@ -1,6 +1,7 @@
 package consensus
 
 import (
+	"bytes"
 	"errors"
 	"fmt"
 	"slices"
@@ -572,7 +573,11 @@ func (s *service) verifyBlock(b dbft.Block[util.Uint256]) bool {
 		var err error
 
 		fee += tx.SystemFee
-		if mainPool.ContainsKey(tx.Hash()) {
+		// A pooled transaction is a verified one, but the hash doesn't cover
+		// witnesses: the copy got for the block must carry the verified ones.
+		if ptx, ok := mainPool.TryGetValue(tx.Hash()); ok && slices.EqualFunc(ptx.Scripts, tx.Scripts, func(a, b transaction.Witness) bool {
+			return bytes.Equal(a.InvocationScript, b.InvocationScript) && bytes.Equal(a.VerificationScript, b.VerificationScript)
+		}) {
 			err = pool.Add(tx, s.Chain)
 			if err == nil {
 				continue
